@@ -39,7 +39,7 @@ func genPrefix(r *rand.Rand, n int) []limgen.Sample {
 }
 
 func TestCheck(t *testing.T) {
-	rt.Cases(4000, 4000000, func(idx int64) {
+	rt.Cases(40000, 4000000, func(idx int64) {
 		r := rt.CaseRand(8, idx)
 		rt.Case()
 		kind := kinds[r.IntN(3)]
